@@ -118,7 +118,11 @@ func (m *Model) PullChildren(ctx context.Context, opts ...resource.ReadOption) <
 	go func() {
 		defer close(out)
 		for change := range changes {
-			out <- childrenChangeToProto(change)
+			select {
+			case <-ctx.Done():
+				return
+			case out <- childrenChangeToProto(change):
+			}
 		}
 	}()
 
